@@ -234,6 +234,13 @@ func getEnv() (*env, error) {
 			}
 		})
 		e.routes = f.Router.VerifRoutes()
+		// rapid favours small indexes; the table is sorted by endpoint, which
+		// would make POST /admin/ast and DELETE /admin/caches (the latter empties
+		// the token cache, so the next request pays a key derivation) by far the
+		// most frequent routes. Order the table by a hash of the route instead.
+		sort.SliceStable(e.routes, func(i, j int) bool {
+			return vkit.Hash64(e.routes[i].Method+" "+e.routes[i].Endpoint) < vkit.Hash64(e.routes[j].Method+" "+e.routes[j].Endpoint)
+		})
 		theEnv = e
 	})
 	return theEnv, envErr
@@ -600,8 +607,8 @@ func TestC40(t *testing.T) {
 		Oracle:   oracle,
 		Fixed:    fixedCases,
 		Extra:    extra,
-		Quick:    1500,
-		Thorough: 20000,
+		Quick:    750,
+		Thorough: 12000,
 	})
 }
 
